@@ -64,6 +64,12 @@
 //	allowlist.go AllowedPeerAndMultiaddr accepts any listed peer              -> admission/admitted-without-room/setpeer/system/*
 //	conn_limiter.go per-subnet comparison off by one                          -> subnet-cap-exceeded
 //
+// Schedule-dependent mutations (invisible to stratum S, caught by stratum C at quiescence within ~10 s):
+//
+//	rcmgr.go  gc() does not take the manager lock (collects a scope that OpenStream/SetPeer is attaching to) -> ledger-mismatch/system/{conns,streams}-*
+//	rcmgr.go  SetPeer does not take the connection lock (races with ReserveMemory on the connection)      -> ledger-mismatch/{peer,transient}/*
+//	scope.go  Done does not take the scope lock (races with reservations/re-parenting of the same holder)  -> ledger-mismatch/*, nonzero-after-last-done/*
+//
 // Candidate repair of F5 (transferAllowedToStandard reserves in the normal scopes first and swaps
 // the edges only on success; SetPeer clears isAllowlisted only after the transfer succeeded), applied
 // the same way: 3 400 runs, no violation of any class (so the W3 reading raises no false alarm on the
